@@ -13,7 +13,7 @@ import (
 func init() { register("C20", checkC20) }
 
 func checkC20(c *vkit.Ctx) {
-	c.P.Rule = "case = generated program recorded once, stale items planted, then a judged process in which a random subset of calls changes value with Update(true|false|unset), some slots are new, some tests call snaps.Skip*, subtests run with t.Parallel and some tests issue their calls from free goroutines, -count in {1,2,3}, CI on/off, every UPDATE_SNAPS value, Sort on/off; oracle (offline over the event log): every call's recorded signals are exactly one of {nothing, one added log, one updated log, one Error}; printed totals passed/failed/added/updated == tallies of classified outcomes, skipped == number of snaps.Skip* calls, and the two obsolete lists == the stale-item oracle of C09; thorough runs the same programs built with -race and counts race reports; non-trivial = >=2 distinct outcome kinds in one process; distinct by hash(scenario, mutations, flags)"
+	c.P.Rule = "case = generated program recorded once, stale items planted, then a judged process in which a random subset of calls changes value with Update(true|false|unset), some slots are new, some tests call snaps.Skip*, in clean mode one process in eight runs with every unlink failing (strace fault injection), subtests run with t.Parallel and some tests issue their calls from free goroutines, -count in {1,2,3}, CI on/off, every UPDATE_SNAPS value, Sort on/off; oracle (offline over the event log): every call's recorded signals are exactly one of {nothing, one added log, one updated log, one Error}; printed totals passed/failed/added/updated == tallies of classified outcomes, skipped == number of snaps.Skip* calls, and the two obsolete lists == the stale-item oracle of C09; thorough runs the same programs built with -race and counts race reports; non-trivial = >=2 distinct outcome kinds in one process; distinct by hash(scenario, mutations, flags)"
 	var extra []string
 	tag := ""
 	if c.Thorough() {
@@ -90,9 +90,17 @@ func runC20(c *vkit.Ctx, lab *Lab, r *rand.Rand, i int) {
 	// ordinals only have to be consumed exactly once each - outcomes are tallied, not predicted.
 	os.MkdirAll(lab.AbsDir, 0o755)
 	os.WriteFile(filepath.Join(lab.AbsDir, "blocker.txt"), []byte("a regular file where a directory is wanted"), 0o644)
-	res := lab.P.RunChild(RunOpt{PkgDir: lab.PkgDir, Scenario: lc.withSkips(), Count: lc.Count, Extra: lc.Flags, Update: lc.Update, CI: lc.CI})
+	opt := RunOpt{PkgDir: lab.PkgDir, Scenario: lc.withSkips(), Count: lc.Count, Extra: lc.Flags, Update: lc.Update, CI: lc.CI}
+	if r.IntN(8) == 0 && !lc.CI && (lc.Update == "clean" || lc.Update == "true") {
+		// every unlink of the child fails (as on an immutable or read-only directory): what Clean
+		// judges obsolete is still what the summary has to show
+		opt.Inject = "unlink,unlinkat:error=EPERM"
+		lc.Classes["removal-of-obsolete-files-fails"] = true
+	}
+	res := lab.P.RunChild(opt)
 	in := labSample(lc)
 	in["ci"] = lc.CI
+	in["fault_injection"] = opt.Inject
 	if !res.Complete {
 		c.Violate("clean-did-not-complete", "", fmt.Sprintf("child died: %v %s", res.Err, res.Stderr), in)
 		return
